@@ -25,7 +25,11 @@ impl ReplayAny for u8 { fn from_u32(v: u32) -> u8 { v as u8 } }
 impl ReplayAny for u16 { fn from_u32(v: u32) -> u16 { v as u16 } }
 impl ReplayAny for u32 { fn from_u32(v: u32) -> u32 { v } }
 impl ReplayAny for bool { fn from_u32(v: u32) -> bool { v % 2 == 1 } }
-pub fn replay_any<T: ReplayAny>() -> T { T::from_u32(REPLAY_COUNTER.fetch_add(1, std::sync::atomic::Ordering::SeqCst)) }
+pub fn replay_any<T: ReplayAny>() -> T {
+  // VERIF_REPLAY_OFFSET shifts the sequence, so that a second run takes the other branch of a nondeterministic bool
+  let off: u32 = std::env::var("VERIF_REPLAY_OFFSET").ok().and_then(|v| v.parse().ok()).unwrap_or(0);
+  T::from_u32(off + REPLAY_COUNTER.fetch_add(1, std::sync::atomic::Ordering::SeqCst))
+}
 '''
 
 
@@ -65,7 +69,16 @@ def prepare(repo, dst):
 def run(repo, scratch, harness, timeout=120):
     dst = os.path.join(scratch, 'r')
     prepare(repo, dst)
-    env = dict(os.environ, CARGO_NET_OFFLINE='true', RUSTFLAGS='-Awarnings')
+    r = None
+    for off in ('0', '1'):   # concrete payloads 7,8,9.. then 8,9,10..: the second run flips every nondeterministic bool
+        r = _run_once(dst, harness, timeout, off)
+        if r['reproduced'] or r['how'] == 'native replay did not build':
+            break
+    return r
+
+
+def _run_once(dst, harness, timeout, off):
+    env = dict(os.environ, CARGO_NET_OFFLINE='true', RUSTFLAGS='-Awarnings', VERIF_REPLAY_OFFSET=off)
     try:
         p = subprocess.run(['cargo', 'test', '--offline', '--lib', '--', '--exact', '--test-threads', '1', '--nocapture', harness_path(dst, harness)],
                            cwd=dst, capture_output=True, text=True, timeout=timeout, env=env)
